@@ -269,7 +269,16 @@ func c16GenHistory(g *Gen, producer bool) {
 	dynamic := r.Chance(42)
 	hdrCfg := r.Chance(40)
 	xin := r.Chance(35) // the server resolves external-location pointer inputs
-	lines := []string{fmt.Sprintf("cfg cache=%d maxresp=%d limit=%d hdr=%d xin=%d", b2i(cache), maxresp, limit, b2i(hdrCfg), b2i(xin))}
+	// externalised OUTPUTS: an in-memory storage and a low threshold, so data batches below / at / above
+	// it travel inline or as a pointer to an upload (which must carry the cursor)
+	ext := r.Chance(30)
+	thr := Pick(r, []int{1, 24, 64, 160})
+	xin = xin || ext // any external-location config also resolves pointer inputs
+	cfgLine := fmt.Sprintf("cfg cache=%d maxresp=%d limit=%d hdr=%d xin=%d", b2i(cache), maxresp, limit, b2i(hdrCfg), b2i(xin))
+	if ext {
+		cfgLine += fmt.Sprintf(" ext=1 thr=%d zstd=%d", thr, b2i(r.Chance(4)))
+	}
+	lines := []string{cfgLine}
 	kind, initKind := "ex", "ex"
 	if producer {
 		kind, initKind = "pr", "pr"
@@ -302,6 +311,32 @@ func c16GenHistory(g *Gen, producer bool) {
 		}
 	} else {
 		prog = genProg(r, true, collide, 7)
+	}
+	if ext {
+		// resize some emits around the threshold (8 bytes per row)
+		ts := strings.Split(prog, "/")
+		for i, t := range ts {
+			if t == "-" || !r.Chance(60) {
+				continue
+			}
+			rows := Pick(r, []int{thr/8 - 1, thr / 8, thr/8 + 1, thr / 4, 40})
+			if rows < 0 {
+				rows = 0
+			}
+			em := fmt.Sprintf("e1:n%dx%d:%s", rows, r.Range(1, 9), genEmitMeta(r, collide))
+			if !producer && r.Chance(35) {
+				em = fmt.Sprintf("E1:n%dx%d", rows, r.Range(1, 9))
+			}
+			if r.Chance(30) {
+				em = fmt.Sprintf("l%d;", r.Intn(50)) + em
+			}
+			ts[i] = em
+		}
+		prog = strings.Join(ts, "/")
+	}
+	// static methods: the state's TYPE may implement both stream interfaces
+	if !dynamic && r.Chance(35) {
+		hword += " dual"
 	}
 	ticks, _ := parseScriptProg(prog)
 	type shadowTok struct {
